@@ -90,7 +90,8 @@ def _match(s, i, op='(', cl=')'):
 
 
 def strip_attrs(okl):
-    """the sequential reading: delete every @attr and @attr(...); a for header's 4th clause disappears."""
+    """the sequential reading: delete every @attr and @attr(...); when the attribute was the 4th clause of a for
+    header (`for (a; b; c; @outer)`) the `;` in front of it goes too."""
     out = []; i = 0
     while i < len(okl):
         c = okl[i]
@@ -103,11 +104,16 @@ def strip_attrs(okl):
             while k < len(okl) and okl[k] in ' \t': k += 1
             if k < len(okl) and okl[k] == '(':
                 j = _match(okl, k)
+            # for-header clause?  previous non-blank is ';' and next non-blank is ')'
+            n = j
+            while n < len(okl) and okl[n] in ' \t\n': n += 1
+            t = len(out) - 1
+            while t >= 0 and out[t] in ' \t\n': t -= 1
+            if n < len(okl) and okl[n] == ')' and t >= 0 and out[t] == ';':
+                del out[t:]
             i = j; continue
         out.append(c); i += 1
-    s = ''.join(out)
-    s = re.sub(r';\s*\)', ')', s)          # `for (a; b; c; )` -> `for (a; b; c)`
-    return s
+    return ''.join(out)
 
 
 def _top_level_functions(src):
@@ -376,6 +382,8 @@ class Prog:
         self.post_assumes = []
         self.post_asserts = []      # extra C statements (VASSERTs) after the comparison
         self.globals = ''           # extra C declarations for the harness
+        self.arr_range = None       # (lo, hi) for symbolic array elements
+        self.skip_cmp = {}          # array name -> indices not compared
 
 
 VISIT = r'''
@@ -493,13 +501,15 @@ def make_queries(ctx, progs, modes, harness_fn, known_keys=(), timeout=120, jobs
 
 
 def prog_to_meta(p):
-    return {k: getattr(p, k) for k in ('name', 'okl', 'kernel', 'args', 'refcap', 'desc', 'assumes', 'excl', 'ref', 'cap', 'arrays', 'unwind', 'excl_post', 'mid_assumes', 'post_assumes', 'post_asserts', 'globals')}
+    def j(v):
+        return {a: sorted(b) for a, b in v.items()} if isinstance(v, dict) and v and isinstance(next(iter(v.values())), set) else v
+    return {k: j(getattr(p, k)) for k in ('name', 'okl', 'kernel', 'args', 'refcap', 'desc', 'assumes', 'excl', 'ref', 'cap', 'arrays', 'unwind', 'excl_post', 'mid_assumes', 'post_assumes', 'post_asserts', 'globals', 'arr_range', 'skip_cmp')}
 
 
 def prog_from_meta(m):
     p = Prog(m['name'], m['okl'], m['kernel'], [tuple(a) for a in m['args']], m['refcap'], m.get('desc', ''), m.get('assumes', ()), m.get('excl'), m.get('ref'),
              m.get('cap', 6), [tuple(a) for a in (m.get('arrays') or [])], m.get('unwind'))
-    p.excl_post = m.get('excl_post') or {}; p.mid_assumes = m.get('mid_assumes') or []; p.post_assumes = m.get('post_assumes') or []; p.post_asserts = m.get('post_asserts') or []; p.globals = m.get('globals') or ''
+    p.excl_post = m.get('excl_post') or {}; p.mid_assumes = m.get('mid_assumes') or []; p.post_assumes = m.get('post_assumes') or []; p.post_asserts = m.get('post_asserts') or []; p.globals = m.get('globals') or ''; p.arr_range = m.get('arr_range'); p.skip_cmp = {k: set(v) for k, v in (m.get('skip_cmp') or {}).items()}
     return p
 
 
@@ -535,3 +545,61 @@ def known_reconfirm(ctx, progs, known, harness_fn, timeout=150):
                 out += kq[:1]
                 break
     return out
+
+
+# ------------------------------------------------------------------ array-mode harness (C15, C20, C21, C23)
+def array_harness(prog, mode, tr_text, active_excl=()):
+    """reference and translation run on equal symbolic scalars and array contents; every output array must be equal
+    element by element.  Arrays are C objects of exactly the declared size, so CBMC's bounds/pointer checks decide
+    'no read or write outside the arrays'."""
+    a = ['/* program %s mode %s : %s */' % (prog.name, mode, prog.desc), PRELUDE, prog.globals]
+    ref = prog.ref if prog.ref is not None else strip_attrs(prog.okl)
+    names = function_names(ref)
+    a.append('/* ---- reference: the OKL source read sequentially ---- */')
+    a.append(rename_block(ref, names, 'ref_'))
+    a.append('/* ---- translation emitted by occa for mode %s (normalised lexically) ---- */' % mode)
+    a.append(tr_text)
+    m = ['int main(void) {']
+    arr = {n: (ct, sz, d) for (ct, n, sz, d) in prog.arrays}
+    call_r = []; call_t = []
+    for (ct, nm, lo, hi) in prog.args:
+        if '*' in ct:
+            if nm in arr:
+                ect, sz, d = arr[nm]
+                m.append('  %s %s_ref[%d], %s_tr[%d];' % (ect, nm, sz, nm, sz))
+                for i in range(sz):
+                    m.append('  { IN(%s, %s_%d); %s_ref[%d] = %s_%d; %s_tr[%d] = %s_%d;%s }' % (
+                        ect, nm, i, nm, i, nm, i, nm, i, nm, i,
+                        (' VASSUME(%s_%d >= %s && %s_%d <= %s);' % (nm, i, prog.arr_range[0], nm, i, prog.arr_range[1])) if prog.arr_range else ''))
+                call_r.append(nm + '_ref'); call_t.append(nm + '_tr')
+            else:
+                call_r.append('0'); call_t.append('0')
+            continue
+        m.append('  IN(%s, %s);' % (ct, nm))
+        if lo is not None:
+            m.append('  VASSUME(%s >= %s && %s <= %s);' % (nm, lo, nm, hi))
+        call_r.append(nm); call_t.append(nm)
+    for s in prog.assumes:
+        m.append('  VASSUME(%s);' % s)
+    for k in active_excl:
+        if k in prog.excl:
+            pred = prog.excl[k]
+            if isinstance(pred, (list, tuple)):
+                if mode not in pred[1]:
+                    continue
+                pred = pred[0]
+            m.append('  VASSUME(!(%s));   /* known finding %s excluded */' % (pred, k))
+    m.append('  ref_%s(%s);' % (prog.kernel, ', '.join(call_r)))
+    m.append('  tr_%s(%s);' % (prog.kernel, ', '.join(call_t)))
+    m.append('  VASSERT(!launch_overflow, "a launch dimension exceeds the bound");')
+    for (ct, nm, sz, d) in prog.arrays:
+        for i in range(sz):
+            if i in prog.skip_cmp.get(nm, ()):
+                continue
+            m.append('  OUTI(%s_ref, %d, %s_ref[%d]); OUTI(%s_tr, %d, %s_tr[%d]);' % (nm, i, nm, i, nm, i, nm, i))
+            m.append('  VASSERT(%s_ref[%d] == %s_tr[%d], "%s[%d]: the translated kernel leaves what the sequential reading of the OKL kernel leaves");' % (nm, i, nm, i, nm, i))
+    for s in prog.post_asserts:
+        m.append('  ' + s)
+    m += ['  VREACH();', '  return 0;', '}']
+    a.append('\n'.join(m))
+    return '\n'.join(a)
